@@ -364,6 +364,14 @@ ReplaceAllUses(s, v, w, flag) ==
         s2 == FoldLeft(LAMBDA acc, u : ReplaceInputRaw(acc, UseNode(u), UseIdx(u), w), s1, SetToSeq(s1.vUses[v]))
     IN Ok(s2)
 
+\* convenience.replace_all_uses_with(values, replacements): the pairs are applied in order, each seeing the effect
+\* of the earlier ones; a pair that is rejected rejects the WHOLE call (C06: nothing has changed then)
+ReplaceAllUsesSeq(s, vs, ws, flag) ==
+  IF Len(vs) # Len(ws) THEN Rej(s, "length")
+  ELSE LET r == FoldLeft(LAMBDA acc, k : IF acc.out # "ok" THEN acc ELSE ReplaceAllUses(acc.s, vs[k], ws[k], flag),
+                         Ok(s), [k \in 1..Len(vs) |-> k])
+       IN IF r.out = "ok" THEN r ELSE Rej(s, r.out)
+
 \* =======================================================================================
 \* Calls: one uniform record shape so that a call is JSON on both sides of the binding
 \* =======================================================================================
@@ -407,6 +415,7 @@ Apply(s, c) ==
     [] c.op = "InitUpdate2" -> InitUpdate2(s, c.g, c.v, c.w)
     [] c.op = "NewNode"    -> NewNode(s, c.vs, c.ws, c.i, c.g)
     [] c.op = "ReplaceAllUses" -> ReplaceAllUses(s, c.v, c.w, c.flag)
+    [] c.op = "ReplaceAllUsesSeq" -> ReplaceAllUsesSeq(s, c.vs, c.ws, c.flag)
 
 ApplyAll(s, cs) == FoldLeft(LAMBDA acc, c : Apply(acc, c).s, s, cs)
 Outcomes(s, cs) ==   \* the sequence of [c, out] records of running cs from s
